@@ -99,3 +99,85 @@ func TestProp_RestartTakesEffect(t *testing.T) {
 		})
 	})
 }
+
+// TestProp_RestartInFirstScheduleRebasesTheNext: "moving to the next schedule after its start delay
+// and back to the first on Restart" - a Restart issued while the FIRST schedule is still active starts
+// the list afresh as well: the second schedule then begins one start delay after the Restart took
+// effect, not at the time planned before it.
+//
+// Restart only posts a request; the runner takes it up at one of its next selects, where it competes
+// with at most two other ready channels, so after 100 further invocations it has been taken up except
+// with probability (2/3)^100 < 1e-17. From the 100th invocation after Restart returned onwards, an
+// invocation at the second schedule's frequency therefore cannot enter before
+// (time Restart was called) + (start delay) + (one period) - a lower bound, sound under any delay.
+func TestProp_RestartInFirstScheduleRebasesTheNext(t *testing.T) {
+	rapid.Check(t, func(rt *rapid.T) {
+		f0 := time.Duration(rapid.IntRange(1, 3).Draw(rt, "firstEveryMs")) * time.Millisecond
+		d1 := time.Duration(rapid.IntRange(400, 600).Draw(rt, "secondAfterMs")) * time.Millisecond
+		f1 := f0 + time.Duration(rapid.IntRange(3, 10).Draw(rt, "secondEveryExtraMs"))*time.Millisecond
+		restartAt := time.Duration(rapid.IntRange(20, int(d1.Milliseconds())-320).Draw(rt, "restartAtMs")) * time.Millisecond
+		fnUs := rapid.SampledFrom([]int{0, 0, 200, 800}).Draw(rt, "fnMicros")
+
+		base := time.Now()
+		var mu sync.Mutex
+		var log []invocation
+		fn := func(freq time.Duration) {
+			enter := time.Since(base)
+			if fnUs > 0 {
+				time.Sleep(time.Duration(fnUs) * time.Microsecond)
+			}
+			mu.Lock()
+			log = append(log, invocation{Enter: enter, Exit: time.Since(base), Freq: freq})
+			mu.Unlock()
+		}
+		r, err := raterun.New(fn, []raterun.Schedule{{StartDelay: 0, Frequency: f0}, {StartDelay: d1, Frequency: f1}})
+		if err != nil {
+			rt.Fatalf("VERIF-INFRA: %v", err)
+		}
+		ctx, cancel := context.WithCancel(context.Background())
+		defer cancel()
+		r.Start(ctx)
+		time.Sleep(restartAt)
+		called := time.Since(base)
+		r.Restart()
+		returned := time.Since(base)
+		// watch until well after the second schedule is due under either reading
+		time.Sleep(time.Until(base.Add(called + d1 + 10*f1)))
+		r.Stop()
+		mu.Lock()
+		all := append([]invocation{}, log...)
+		mu.Unlock()
+
+		desc := fmt.Sprintf("schedules {0, every %s}{after %s, every %s} fn=%dus Restart at %s", f0, d1, f1, fnUs, restartAt)
+		after := 0
+		var settled time.Duration = -1 // entry of the 100th invocation after Restart returned
+		for _, inv := range all {
+			if inv.Enter >= returned {
+				after++
+				if after == 100 {
+					settled = inv.Enter
+				}
+			}
+		}
+		judged := 0
+		earliest := called + d1 + f1
+		for n, inv := range all {
+			if settled < 0 || inv.Enter <= settled || inv.Freq != f1 {
+				continue
+			}
+			judged++
+			if inv.Enter+slack < earliest {
+				stats.Case("restart-in-first", desc, true, []string{"second-schedule-judged"}, func() any { return map[string]any{"case": desc} })
+				rt.Fatalf("VERIF-VIOLATION C18: Restart was called at %s (returned %s) while the first schedule was active and had been taken up by %s (100 invocations later); invocation #%d at the second schedule's frequency %s entered at %s, but the second schedule starts %s after the restart, so not before %s\ncase: %s",
+					called, returned, settled, n, f1, inv.Enter, d1, earliest, desc)
+			}
+		}
+		cls := []string{}
+		if judged > 0 {
+			cls = append(cls, "second-schedule-judged")
+		}
+		stats.Case("restart-in-first", desc, judged > 0, cls, func() any {
+			return map[string]any{"case": desc, "invocations": len(all), "second_schedule_invocations_judged": judged}
+		})
+	})
+}
